@@ -408,4 +408,10 @@ theorem kill_removes_own_dir (P : Params) (hP : P.socketDirOwnedByClient = true)
 its own -/
 theorem shared_config_witness : killRemovesOwnDir { goodParams with socketDirOwnedByClient := false } true = false := by decide
 
+/-- **A launch that fails before there is a runner leaves no socket directory** (the former defect D16). -/
+theorem no_dir_without_runner (P : Params) (hP : P.socketDirRemovedIfNoRunner = true) : dirLeftWithoutRunner P = false := by
+  simp [dirLeftWithoutRunner, hP]
+
+theorem no_runner_witness : dirLeftWithoutRunner { goodParams with socketDirRemovedIfNoRunner := false } = true := by decide
+
 end GoPlugin.Props.C18
